@@ -401,7 +401,7 @@ func (e *Environment) Epoch() int64 {
 
 func (e *Environment) noteReplaced(name string, old Object) {
 	if e.depth == 0 && (old.Type() == FUNC || Constant(name)) {
-		e.epoch++
+		e.root().epoch++ // (Epoch() reads the outermost one: the scope of a macro body is at depth 0 and has an outer one.)
 	}
 }
 
